@@ -10,6 +10,11 @@ HOST_DECLS = '''enum Color:
     Blue
 
 
+enum Shade:
+    Dark
+    Light
+
+
 model P:
     x: int
     name: str
@@ -62,6 +67,9 @@ STMT_RULES = [
     ("reassign_immutable.plain_nested_scope", ["let zq = 1", "if true:", "    zq = 2"], 2, ["mut zq = 1", "if true:", "    zq = 2"]),
     ("wrong_type.reassign_nested_scope", ["mut zq = 1", "if true:", '    zq = "s"'], 2, ["mut zq = 1", "if true:", "    zq = 2"]),
     ("reassign_immutable.compound_nested_scope", ["zq = 1", "for zq_i in range(2):", "    zq += 2"], 2, ["mut zq = 1", "for zq_i in range(2):", "    zq += 2"]),
+    ("reassign_immutable.loop_var_plain", ["for zq_x in range(2):", "    zq_x = 5"], 1, ["for zq_x in range(2):", "    mut zq_y = zq_x", "    zq_y = 5"]),
+    ("reassign_immutable.loop_var_compound", ["for zq_x in range(2):", "    zq_x += 1"], 1, ["for zq_x in range(2):", "    mut zq_y = zq_x", "    zq_y += 1"]),
+    ("reassign_immutable.loop_var_compound_nested", ["for zq_x in range(2):", "    if zq_x > 0:", "        zq_x += 1"], 2, ["for zq_x in range(2):", "    mut zq_y = zq_x", "    if zq_x > 0:", "        zq_y += 1"]),
     ("mutate_immutable.field", ["zq_p = P(x=1, name=\"n\")", "zq_p.x = 5"], 1, ["mut zq_p = P(x=1, name=\"n\")", "zq_p.x = 5"]),
     ("mutate_immutable.index", ["zq_xs = [1, 2]", "zq_xs[0] = 3"], 1, ["mut zq_xs = [1, 2]", "zq_xs[0] = 3"]),
     ("mutate_immutable.append", ["zq_xs = [1, 2]", "zq_xs.append(4)"], 1, ["mut zq_xs = [1, 2]", "zq_xs.append(4)"]),
@@ -70,6 +78,14 @@ STMT_RULES = [
     ("try.incompatible_error", ["zq_v = res_int_err()?"], 0, ["zq_v = res_str_err()?"]),
     ("match.enum_missing_variant", ["zq_c = Color.Red", "match zq_c:", "    Color.Red => println(1)", "    Color.Green(zq_g) => println(zq_g)"], 1,
      ["zq_c = Color.Red", "match zq_c:", "    Color.Red => println(1)", "    Color.Green(zq_g) => println(zq_g)", "    Color.Blue => println(3)"]),
+    ("match.enum_missing_variant_foreign_arm", ["zq_c = Color.Red", "match zq_c:", "    Color.Red => println(1)", "    Color.Green(zq_g) => println(zq_g)", "    Shade.Dark => println(3)"], 1,
+     ["zq_c = Color.Red", "match zq_c:", "    Color.Red => println(1)", "    Color.Green(zq_g) => println(zq_g)", "    Color.Blue => println(3)"]),
+    ("match.enum_missing_variant_misspelt_arm", ["zq_c = Color.Red", "match zq_c:", "    Color.Red => println(1)", "    Color.Green(zq_g) => println(zq_g)", "    Color.Bleu => println(3)"], 1,
+     ["zq_c = Color.Red", "match zq_c:", "    Color.Red => println(1)", "    Color.Green(zq_g) => println(zq_g)", "    Color.Blue => println(3)"]),
+    ("match.option_missing_none_foreign_arm", ["zq_o = opt_int()", "match zq_o:", "    Some(zq_v) => println(zq_v)", "    Ok(zq_w) => println(zq_w)"], 1,
+     ["zq_o = opt_int()", "match zq_o:", "    Some(zq_v) => println(zq_v)", "    None => println(0)"]),
+    ("match.result_missing_err_foreign_arm", ["zq_o = res_str_err()", "match zq_o:", "    Ok(zq_v) => println(zq_v)", "    Some(zq_w) => println(zq_w)"], 1,
+     ["zq_o = res_str_err()", "match zq_o:", "    Ok(zq_v) => println(zq_v)", "    Err(zq_e) => println(zq_e)"]),
     ("match.option_missing_none", ["match opt_int():", "    Some(zq_v) => println(zq_v)"], 0, ["match opt_int():", "    Some(zq_v) => println(zq_v)", "    None => println(0)"]),
     ("match.option_missing_some", ["match opt_int():", "    None => println(0)"], 0, ["match opt_int():", "    Some(zq_v) => println(zq_v)", "    None => println(0)"]),
     ("match.result_missing_err", ["match res_str_err():", "    Ok(zq_v) => println(zq_v)"], 0, ["match res_str_err():", "    Ok(zq_v) => println(zq_v)", "    Err(zq_e) => println(zq_e)"]),
@@ -239,11 +255,39 @@ def gen_cells(r=None):
     return cells
 
 
+DECOY = '''def zz_decoy(n: int) -> int:
+    mut zq = 0
+    zq += n
+    zq = zq + 1
+    mut zq_p = P(x=1, name="d")
+    zq_p.x = 2
+    zq_p.bump(1)
+    mut zq_xs = [1]
+    zq_xs[0] = 2
+    zq_xs.append(3)
+    mut zq_x = 0
+    zq_x += 1
+    for zq_i in range(2):
+        zq += zq_i
+    for zq in range(2):
+        pass
+    for zq_p in [P(x=1, name="e")]:
+        zq_p.x = 3
+    return zq_x
+
+
+'''
+
+
 def vary(src, r):
-    """Host variation that keeps byte offsets consistent for later range computation: rename host identifiers, add benign lines."""
+    """Host variation that keeps byte offsets of `src` consistent (only a prefix is added): constants, and - half of the time - a
+    sibling function in which the names the edited construct uses are legitimately mutable / loop variables (name reuse across scopes)."""
     n = r.randint(0, 3)
     pre = "".join("const ZK%d = %d\n" % (i, r.randint(0, 9)) for i in range(n))
-    return pre + ("\n\n" if n else "") + src
+    pre += ("\n\n" if n else "")
+    if r.random() < 0.5:
+        pre += DECOY
+    return pre + src
 
 
 def cell_feature(c):
